@@ -13,7 +13,7 @@ def run(ctx):
         "row (db) within the same iteration; commit_changes makes the height table durable before any state table (global "
         "flush first, caches dropped last); BlockDatabase::commit flushes after its puts; BlockDatabase::reorg bounds its "
         "delete loop by its own last key starting at N+1; BlockCachedDatabase::reorg re-reads every persisted history and "
-        "every cached key then commits; D::reorg visits every table before committing. What the database contains after a "
+        "every cached key then commits; D::reorg visits every table before committing and rolls the height table back only after every state table (so a crash inside the reorg can be repaired by repeating it). What the database contains after a "
         "crash (RocksDB atomicity, WAL) and equality with a fresh replay are NOT decided.")
     R.trusted = ["rustc resolution/MIR (A1)", "a single RocksDB put/delete is atomic and WAL-durable for process crashes (A3)"]
     T.clause_commit_per_key(R, F)
@@ -24,4 +24,5 @@ def run(ctx):
     T.clause_tables(R, F, "reorg")
     T.clause_tables(R, F, "commit_changes")
     T.clause_reorg_order(R, F)
+    T.clause_reorg_height_last(R, F)
     return R
